@@ -125,6 +125,18 @@ def run(ctx, R, tier):
             "`%s` waits for the refused peer before the connection is closed: a peer that stays connected and silent keeps a refused connection open and a worker blocked"
             % (unparse(blocked[0].ast, 60) if blocked else ""))
 
+    # the same inside _handshake: once the answer is sent it returns - it reads nothing more from a peer it has just refused, and waits for nothing
+    hsf_ = ctx.fn(HANDSHAKE)
+    hcfg2 = ctx.cfg(hsf_)
+    sends = [n for n in hcfg2.nodes for c in calls_in(n) if isinstance(c.func, ast.Attribute) and c.func.attr == "send" and isinstance(c.func.value, ast.Name) and c.func.value.id == hsf_.params[1]]
+    if not sends:
+        raise AnalysisError("_handshake: the send of the handshake answer vanished")
+    late = [n for n in hcfg2.nodes for c in calls_in(n) if isinstance(c.func, ast.Attribute) and c.func.attr in WAITS | {"recv_stub", "receive_data", "shutdown"}
+            and hcfg2.path_exists(sends, lambda m, n=n: m is n)]
+    R.check(not late, "C08-R2", "_handshake|returns-once-the-answer-is-sent", "after the handshake answer was sent _handshake neither reads from the peer nor waits", hsf_.loc(late[0].ast) if late else hsf_.loc(),
+            "`%s` runs after the answer was sent: a refused peer that stays connected and silent (or keeps sending) holds the thread that handles it - on the multiplex server and on the "
+            "thread-pool's accept thread that is the whole daemon" % (unparse(late[0].ast, 60) if late else ""))
+
     # ---------------------------------------------------------------- R3
     ev = ctx.fn("Pyro5.svr_multiplex.SocketServer_Multiplex.events")
     ecfg = ctx.cfg(ev)
@@ -267,8 +279,12 @@ def run(ctx, R, tier):
         mcfg = ctx.cfg(get_meta)
         mrets = [n for n in mcfg.nodes if n.kind == "stmt" and isinstance(n.ast, ast.Return) and not is_falsy_const(n.ast.value)]
 
+        # the variable that holds what the registry lookup of THIS call returned
+        looked_up = {t.id for st2, t, k2 in stores_in(get_meta.node) if k2 == "assign" and isinstance(t, ast.Name) and "objectsById" in unparse(st2.value, 200)}
+
         def obj_known(atom, pol):
-            if isinstance(atom, ast.Compare) and len(atom.ops) == 1 and isinstance(atom.comparators[0], ast.Constant) and atom.comparators[0].value is None:
+            if isinstance(atom, ast.Compare) and len(atom.ops) == 1 and isinstance(atom.comparators[0], ast.Constant) and atom.comparators[0].value is None \
+                    and isinstance(atom.left, ast.Name) and atom.left.id in looked_up:
                 return (isinstance(atom.ops[0], ast.IsNot) and pol is True) or (isinstance(atom.ops[0], ast.Is) and pol is False)
             return False
         ok = bool(mrets) and all(mcfg.guarded(n, lambda e: edge_has_fact(e, obj_known)) for n in mrets) and \
@@ -383,21 +399,27 @@ def run(ctx, R, tier):
 
     # ---------------------------------------------------------------- R5
     from ..report import Rules
+    from ..report import run_shared as _run_shared
     from . import c03
     R3 = Rules("C03")
     try:
-        c03.run(ctx, R3, tier)
+        _run_shared(ctx, c03, R3, tier)
     except AnalysisError as _shared_x:
         # the other property's own anchors are gone on this tree: its check reports that; what it produced before is still shared
         R.note("obligations shared from C03 are incomplete on this tree: %s" % _shared_x)
     from . import c17
     R17 = Rules("C17")
     try:
-        c17.run(ctx, R17, tier)
+        _run_shared(ctx, c17, R17, tier)
     except AnalysisError as _shared_x:
         # the other property's own anchors are gone on this tree: its check reports that; what it produced before is still shared
         R.note("obligations shared from C17 are incomplete on this tree: %s" % _shared_x)
     for o in R17.obs:
+        if o.rule == "C17-R2" and o.key.split("|")[1] == "receive_data" and o.key.endswith(":TimeoutError"):
+            # _handshake answers every failure with a connect-failure EXCEPT ConnectionClosedError ("the peer is gone, nobody to answer"): a read that reports a stalled -
+            # but still connected - peer as a closed connection makes the daemon drop it without the reason the property promises
+            R.add("C08-R5", "receive_data|" + o.key.split("|", 2)[2], o.desc + " (a peer whose CONNECT stalls is still connected: it is owed the connect-failure, which _handshake "
+                  "sends for TimeoutError and not for ConnectionClosedError)", o.ok, o.loc, o.detail)
         if o.key == "C17-R1|receive_data|short-read-decided-by-length":
             R.add("C08-R5", "receive_data|short-read-decided-by-length", o.desc + " (a CONNECT with an empty payload must be answered with a connect-failure, not dropped as a closed connection)",
                   o.ok, o.loc, o.detail)
